@@ -260,7 +260,7 @@ fn family_total(family: &str, arg: u32) -> u64 {
 pub fn worker(family: &str, start: u64, end: u64, step: u64, arg: &str) {
     quiet_panics();
     let arg: u32 = arg.parse().unwrap_or(0);
-    let hang_ms = if family == "long" { 30_000 } else { 600 };
+    let hang_ms = if family == "long" { 30_000 } else { 2_000 };
     iso::worker_guard(2 << 30, hang_ms);
     let mut evals = 0u64;
     let mut strict_ok = 0u64;
